@@ -162,7 +162,16 @@ class Detector:
     @photon.setter
     def photon(self, obj: Photon) -> None:
         """Set the photon information for the detector."""
-        self.photon._array = obj._array
+        if not isinstance(obj, Photon):
+            raise TypeError(f"Expected a 'Photon' object. Got: {obj!r}")
+
+        # Use the setters of the container to validate the new data
+        if obj.ndim == 0:
+            self.photon.empty()
+        elif obj.ndim == 3:
+            self.photon.array_3d = obj.array_3d
+        else:
+            self.photon.array = obj.array
 
     @property
     def scene(self) -> Scene:
